@@ -27,6 +27,8 @@ AllSits == {s \in Raw : /\ ~(s.input \in {"missing", "directory"} /\ s.channel \
            \cup {S(i, "path", f, "none") : i \in {"badfname", "nlfname", "unreadable"}, f \in {"json", "csv"}}
            \cup {[S(i, c, "json", "none") EXCEPT !.out = "stderrfull"] : i \in {"ok", "syntax", "empty", "missing"}, c \in {"path", "stdin"}}
            \cup {S("nonascii", c, f, "none") : c \in {"path", "stdin"}, f \in {"json", "csv"}} \cup EnvSits
+           \* "large": more than a thousand tasks to place (whatever the engine prints while it works goes to stderr)
+           \cup {S("large", c, f, "none") : c \in {"path", "stdin"}, f \in {"json", "csv"}}
 \* outside faults (C20): every situation here is replayed alone, and some of them among other processes
 FaultSits == {([fault |-> f] @@ S(i, c, "json", "none")) : i \in {"ok", "syntax"}, c \in {"path", "stdin"}, f \in {"sigint", "fsize"}}
              \cup {([fault |-> f] @@ S("ok", c, "json", "none")) : c \in {"path", "stdin"}, f \in {"sigterm", "sighup"}}
